@@ -34,7 +34,7 @@ class Standin:
 
 
 class PropertySpec:
-    def __init__(self, pid, files, targets, level="proof", standins=(), assumptions=(), not_decided=(), technique="", bounded_targets=()):
+    def __init__(self, pid, files, targets, level="proof", standins=(), assumptions=(), not_decided=(), technique="", bounded_targets=(), standin_for=None):
         self.pid = pid
         self.files = files
         self.targets = targets
@@ -44,6 +44,7 @@ class PropertySpec:
         self.not_decided = list(not_decided)
         self.technique = technique
         self.bounded_targets = list(bounded_targets)
+        self.standin_for = dict(standin_for or {})  # contracted target -> name of the stand-in that evaluates the same contract at run time
 
 
 def load_known(path=None):
@@ -179,6 +180,23 @@ def check_property(spec: PropertySpec, tier="quick", seed=0, src_root="/repo/src
                     found = sr["violations"][0]
             except Exception:
                 faults.append(f"concretiser for {target}: {traceback.format_exc()}")
+        if found is None and target in spec.standin_for:
+            # the executable form of this function's contract lives in a property-level stand-in: use it as the concretiser
+            try:
+                sd = next(v for v in vars(E).values() if isinstance(v, Standin) and v.name == spec.standin_for[target])
+                sr = sd.run(tier, rng, src_root)
+                hit = [(w, r) for w, r in sr.get("violations", []) if target.split(":")[-1].lstrip("_") in w or target.split(":")[-1] in w]
+                if hit:
+                    what, recipe = hit[0]
+                    name = (bad[0].name if bad else target + "/unbound")
+                    path = write_replay(spec.pid, name, dict(
+                        property=spec.pid, target=sd.name, obligation=name, kind="standin-input", recipe=recipe, detail=what,
+                        failed_obligations=[o.name for o in bad], unbound=msg,
+                        solver={o.name: [list(a) for a in o.result.attempts] for o in bad if o.result}))
+                    violations.append((name, path, True))
+                    continue
+            except Exception:
+                faults.append(f"concretiser (stand-in) for {target}: {traceback.format_exc()}")
         if found is not None:
             recipe, res = found
             name = (bad[0].name if bad else target + "/unbound")
